@@ -610,6 +610,132 @@ def run_cfeed(case: dict, stats: dict) -> str | None:
         loop.close()
 
 
+def run_iseq(case: dict, stats: dict) -> str | None:
+    """A sequence of calls on one BufferedByteReceiveStream over a gated object stream in which calls
+    are interrupted (cancelled) while they wait for the wrapped stream, data is fed in between, and
+    the next call starts from whatever is buffered.  Judged against the property text only: the bytes
+    handed out (plus consumed delimiters) are always the next bytes of what entered the stream, in
+    order; receive gives 1..n bytes; receive_exactly exactly n; receive_until everything before the
+    FIRST occurrence of the delimiter; an interrupted call consumes nothing."""
+    import asyncio
+
+    chunks = [unhx(c) for c in case["chunks"]]
+
+    async def main() -> str | None:
+        src = GatedObjStream()
+        bs = BufferedByteReceiveStream(src)
+        entered = bytearray()  # in the order the bytes entered the stream's buffer
+        handed = 0  # how many of them were handed out (returned or consumed as delimiter)
+        left = list(chunks)
+        for op in case["ops"]:
+            if op[0] == "feed":
+                bs.feed_data(unhx(op[1]))
+                entered += unhx(op[1])
+                continue
+            allow = op[-1]
+            if op[0] == "exactly_all":
+                # exactly what is buffered right now (the whole-buffer case of receive_exactly)
+                if not bs.buffer:
+                    continue
+                op = ["exactly", len(bs.buffer), allow]
+            if op[0] == "receive":
+                coro = bs.receive(op[1])
+            elif op[0] == "exactly":
+                coro = bs.receive_exactly(op[1])
+            else:
+                coro = bs.receive_until(unhx(op[1]), op[2])
+            task = asyncio.ensure_future(coro)
+            outcome: Any = None
+            for _ in range(200):
+                await asyncio.sleep(0)
+                if task.done():
+                    break
+                if src.pending:
+                    if allow > 0 and left:
+                        allow -= 1
+                        c = left.pop(0)
+                        entered += c
+                        src.pending.pop(0).set_result(c)
+                    else:
+                        task.cancel()  # interrupted while waiting for the wrapped stream
+                        src.pending.clear()
+            try:
+                outcome = ("ret", await task)
+            except asyncio.CancelledError:
+                outcome = ("cancelled",)
+            except BaseException as e:  # noqa: BLE001
+                outcome = ("exc", exc_name(e))
+            k = "iseq:" + op[0] + ":" + outcome[0]
+            stats.setdefault("ops", {})[k] = stats.setdefault("ops", {}).get(k, 0) + 1
+            rest = bytes(entered[handed:])
+            if outcome[0] == "ret":
+                got = outcome[1]
+                if op[0] == "until":
+                    d = unhx(op[1])
+                    if d in got:
+                        return f"first-occurrence: receive_until({d!r}) returned {got!r}, which contains the delimiter"
+                    if rest[: len(got) + len(d)] != got + d:
+                        return (f"conservation: receive_until({d!r}) returned {got!r} but the stream continues "
+                                f"with {rest[:len(got) + len(d) + 4]!r}")
+                    handed += len(got) + len(d)
+                else:
+                    n = op[1]
+                    if op[0] == "exactly" and len(got) != n:
+                        return f"exactly: receive_exactly({n}) returned {len(got)} bytes"
+                    if op[0] == "receive" and not 1 <= len(got) <= n:
+                        return f"receive: receive({n}) returned {len(got)} bytes"
+                    if rest[: len(got)] != got:
+                        return (f"conservation: {op[0]}({n}) returned {got!r} but the stream continues with "
+                                f"{rest[:len(got) + 4]!r}")
+                    handed += len(got)
+            elif outcome[0] == "exc" and op[0] == "until" and outcome[1] == "notfound":
+                d = unhx(op[1])
+                if d in rest[: op[2] + len(d)]:
+                    return (f"first-occurrence: receive_until({d!r}, {op[2]}) raised DelimiterNotFound although "
+                            f"the delimiter is within the limit in {rest[:op[2] + len(d)]!r}")
+            # an interrupted or failed call consumes nothing: what is buffered is still the next bytes
+            if bytes(bs.buffer) != bytes(entered[handed:]):
+                return (f"conservation: after {op[:-1]} -> {outcome[0]} the buffer holds {bytes(bs.buffer)!r}, "
+                        f"the unread part of the stream is {bytes(entered[handed:])!r}")
+        return None
+
+    loop = asyncio.new_event_loop()
+    try:
+        return loop.run_until_complete(main())
+    finally:
+        loop.close()
+
+
+def gen_iseq(rng: random.Random, count: int):
+    for _ in range(count):
+        alpha = b"ab|"
+        chunks = [bytes(rng.choice(alpha) for _ in range(rng.randint(1, 5))) for _ in range(rng.randint(2, 6))]
+        ops: list[list] = []
+        if rng.random() < 0.3:
+            # a search interrupted with bytes buffered, the buffer taken as a whole, new bytes arriving
+            # without a search, then the same search again
+            d = rng.choice([b"|", b"ab", b"|a|"])
+            ops += [["until", hx(d), rng.randint(4, 12), rng.choice([1, 1, 2])], ["exactly_all", 0]]
+            if rng.random() < 0.6:
+                ops.append(["feed", hx(bytes(rng.choice(alpha) for _ in range(rng.randint(0, 2))) + d
+                                       + bytes(rng.choice(alpha) for _ in range(rng.randint(0, 3))))])
+            else:
+                ops.append(["receive", 1, 1])
+            ops.append(["until", hx(d), rng.randint(4, 12), rng.choice([0, 1, 2])])
+        for _ in range(rng.randint(3, 8)):
+            r = rng.random()
+            allow = rng.choice([0, 0, 1, 1, 2, 3])
+            if r < 0.2:
+                ops.append(["feed", hx(bytes(rng.choice(alpha) for _ in range(rng.randint(1, 4))))])
+            elif r < 0.45:
+                ops.append(["receive", rng.randint(1, 6), allow])
+            elif r < 0.7:
+                ops.append(["exactly", rng.randint(1, 6), allow])
+            else:
+                ops.append(["until", hx(rng.choice([b"|", b"a", b"ab", b"|a|"])), rng.randint(2, 12), allow])
+        yield {"t": "iseq", "chunks": [hx(c) for c in chunks], "ops": ops}
+
+
 def gen_extra(rng: random.Random, count: int):
     for _ in range(count):
         if rng.random() < 0.5:
@@ -683,10 +809,11 @@ def run_cases(cases: list[dict], res: Result) -> None:
     buf_cases = [c for c in cases if c["t"] == "buf"]
     txt_cases = [c for c in cases if c["t"] in ("recv", "rt")]
     for case in cases:
-        if case["t"] in ("rterr", "cfeed"):
+        if case["t"] in ("rterr", "cfeed", "iseq"):
             res.evaluations += 1
             try:
-                bad = run_rt_err(case, res.stats) if case["t"] == "rterr" else run_cfeed(case, res.stats)
+                bad = (run_rt_err(case, res.stats) if case["t"] == "rterr" else
+                       run_cfeed(case, res.stats) if case["t"] == "cfeed" else run_iseq(case, res.stats))
             except Exception as e:  # noqa: BLE001
                 bad = f"crash: {type(e).__name__}: {e}"
             if bad:
@@ -776,6 +903,7 @@ def run(ctx: Ctx) -> Result:
             gen_random_long(rng, ctx.n(3000, 0)),
             gen_text(rng, ctx.n(1500, 0), False),
             gen_extra(rng, ctx.n(600, 0)),
+            gen_iseq(rng, ctx.n(1500, 0)),
         ]
     else:
         streams += [
@@ -785,6 +913,7 @@ def run(ctx: Ctx) -> Result:
             gen_random_long(rng, ctx.n(0, 60000)),
             gen_text(rng, ctx.n(0, 25000), True),
             gen_extra(rng, ctx.n(0, 6000)),
+            gen_iseq(rng, ctx.n(0, 20000)),
         ]
         res.exhaustive = b >= 1.0
         res.stats["enumerated_small_scope"] = "all strings<=6 x chunkings x kinds"
